@@ -48,6 +48,18 @@ NEEDS = {
  'C11c': ('dicom_scale multiplies np.asarray(dicom["PixelSpacing"]) in place', 'header whose PixelSpacing is a float64 ndarray, any transform that rescales the spacing'),
  'C14c': ('serialization.load reads JSON files with yaml.safe_load', 'save / load with data_format="json" and a float whose repr is exponent form without a dot (1e-05)'),
  'C16c': ('RandomRotate90.apply_to_dicom swaps the spacing only for abs(factor) == 1', 'RandomRotate90 in the xy plane drawing factor 3, anisotropic PixelSpacing'),
+ 'C02c': ('bbox_rotate unpacks the enlarged frame of crop_to_border as (cols, rows, slices)', 'Rotate(crop_to_border=True) in the xy plane on a frame with rows != cols, boxes away from the centre'),
+ 'C07c': ('CropAndPad.get_params_dependent_on_targets drops the depth from the "nothing cropped" test (same edit as C02b, produced independently for C07)', 'CropAndPad that crops only the close / far faces'),
+ 'C12c': ('add_noise_nps builds the noise field with shape (width, height)', 'NPSNoise on a volume with rows != cols (raises; silently wrong shape when one of them is 1)'),
+ 'C13c': ('ReplayCompose.replay returns its inputs unprocessed when the record says nothing was applied', 'a record in which no transform fired, with bbox / keypoint params that filter or convert the annotations'),
+ 'C18c': ('F.convolve calls ndimage.correlate', 'Blur with an even kernel size, or F.convolve with a kernel that is not point-symmetric'),
+ 'C20c': ('BasicTransform.update_params forwards interpolation / fill_value / mask_fill_value only when not None', 'CoarseDropout(mask_fill_value=None) with a mask: the keyword default 0 fills the mask holes'),
+ 'C04c': ('BboxProcessor.filter passes min_height as min_depth', 'BboxParams with min_depth != min_height and a box whose clipped depth lies between the two'),
+ 'C09c': ('add_noise_nps memoises the resampled noise spectrum per (kernel, height, width), ignoring the pixel spacing', 'NPSNoise after an earlier call in the same process with the same kernel and slice size but another PixelSpacing'),
+ 'C10c': ('filter_keypoints drops x > cols - 1 (same edit as C03c, produced independently for C10)', 'no transform firing, a keypoint with a fractional coordinate inside the last voxel'),
+ 'C15c': ('get_always_apply looks only at the direct children of a nested operator', 'a skipped Compose with an always_apply leaf two or more operators deep'),
+ 'C17c': ('bbox_crop passes (crop_width, crop_height) where (crop_height, crop_width) is expected', 'Crop (also after PadIfNeeded: the inverse crop) with a window whose height != width, boxes'),
+ 'C19c': ('BBoxSafeRandomCrop d_start tests bw >= 1.0 instead of bd >= 1.0', 'boxes whose union spans the full width but not the full depth (or the reverse: NaN), erosion_rate = 0'),
  'C20b': ('GridDropout loops k over range(height // unit_depth + 1)', 'GridDropout on a volume whose depth exceeds its height by a grid unit or more'),
 }
 detected = json.load(open(os.path.join(V, 'seeded', 'detected.json'))) if os.path.exists(os.path.join(V, 'seeded', 'detected.json')) else {}
